@@ -84,7 +84,26 @@ impl Ctx {
         *self.counters.entry(name).or_insert(0) += n;
     }
     pub fn hit_dyn(&mut self, name: String) {
-        *self.dyn_counters.entry(name).or_insert(0) += 1;
+        // numbers are replaced by K so that one cause is one key in the evidence
+        if name.starts_with("unarmed.") {
+            *self.dyn_counters.entry(name).or_insert(0) += 1;
+            return;
+        }
+        let mut key = String::with_capacity(name.len());
+        let mut in_num = false;
+        for c in name.chars() {
+            let numeric = c.is_ascii_digit() || (in_num && (c == '.' || c == 'e' || c == '-'));
+            if numeric {
+                if !in_num {
+                    key.push('K');
+                }
+                in_num = true;
+            } else {
+                in_num = false;
+                key.push(c);
+            }
+        }
+        *self.dyn_counters.entry(key).or_insert(0) += 1;
     }
     pub fn violate(&mut self, property: &str, monitor: &str, clause: &str, detail: String) {
         self.violate_sig(property, monitor, clause, detail, Sig::new())
